@@ -173,10 +173,10 @@ var (
 type exitSentinel struct{}
 
 func slotNow() int {
-	if zsimrt.Active() {
+	if zsimrt.Active() && !zsimrt.SoloOn() {
 		return zsimrt.Cur()
 	}
-	return soloSlot
+	return soloSlot // also in a simulated solo pass (a library with goroutines of its own): one caller, one fault plan
 }
 
 // ensureDrivers builds the shared driver values on the main goroutine, outside
